@@ -51,6 +51,10 @@ BODIES = {
     "late-latin2-pragma-then-koi8": (FILL + b"<meta http-equiv=content-type content='text/html; charset=iso-8859-2'><meta charset=koi8-r><p>" + TEXT,
                                      None, ("iso-8859-2", "koi8-r")),
     "late-bogus-then-koi8": (FILL + b"<meta charset=bogus><meta charset=koi8-r><p>" + TEXT, None, ("bogus", "koi8-r")),
+    # the prescan does not tokenize: what it finds inside RCDATA / raw text is only a tentative guess, the first real
+    # <meta> met by tree construction overrides it
+    "prescan-in-title-then-real": (b"<title><meta charset=koi8-r></title><meta charset=windows-1251><p>" + TEXT, "koi8-r", ("windows-1251",)),
+    "prescan-in-script-then-real": (b"<script>'<meta charset=koi8-r>'</script><meta charset=iso-8859-2><p>" + TEXT, "koi8-r", ("iso-8859-2",)),
 }
 
 
